@@ -1,0 +1,15 @@
+//go:build verif
+
+package configuration
+
+// Contracts for gvc (see /verif/DESIGN.md). Comment-only: this file adds no code to any build.
+
+// The annotation table the common validator consults, as far as C10 depends on it: the five parameter-binding
+// annotations are known and demand a value that no other binding annotation of the method uses ("every function
+// parameter is referenced by exactly one of @Path/@Query/@Header/@FormField/@Body"); a body excludes form fields
+// and vice versa. Proved from the package initialiser.
+//@ spec bindingEntry(name string) bool = indom(ValidatorConfigMap, name) && ValidatorConfigMap[name].RequiresUniqueValue && ValidatorConfigMap[name].RequiresValue
+//@ func init props C10,C14 havocs
+//@ ensures bindings: bindingEntry("Path") && bindingEntry("Query") && bindingEntry("Header") && bindingEntry("Body") && bindingEntry("FormField")
+//@ ensures single: !ValidatorConfigMap["Body"].AllowsMultiple && !ValidatorConfigMap["Method"].AllowsMultiple && !ValidatorConfigMap["Route"].AllowsMultiple
+//@ ensures exclusive: len(ValidatorConfigMap["Body"].MutuallyExclusive) == 1 && ValidatorConfigMap["Body"].MutuallyExclusive[0] == "FormField" && len(ValidatorConfigMap["FormField"].MutuallyExclusive) == 1 && ValidatorConfigMap["FormField"].MutuallyExclusive[0] == "Body"
